@@ -76,6 +76,8 @@ def build_grid(tier='quick'):
             x, y = ('var', 'x', kind), ('var', 'y', kind)
             add('B_%s_%s_vv' % (OPNAME[op], kn), [('x', kind), ('y', kind)], kind, ('bin', op, x, y, kind), mode)
             for i, c in enumerate(consts_for(kind, op)):
+                if tier == 'quick' and i >= 2 and not (op in ('/', '%') and c == -1):
+                    continue          # the quick tier keeps two constants per operator (and the overflowing divisor -1)
                 add('B_%s_%s_vc%d' % (OPNAME[op], kn, i), [('x', kind)], kind, ('bin', op, x, ('const', c, kind), kind), mode)
                 add('B_%s_%s_cv%d' % (OPNAME[op], kn, i), [('x', kind)], kind, ('bin', op, ('const', c, kind), x, kind), mode)
         for op in CMP:
@@ -90,7 +92,7 @@ def build_grid(tier='quick'):
             for ck in ('uint8', 'uint', 'uint64', 'int'):
                 pre = ('y >= 0') if ck == 'int' else None
                 add('S_%s_%s_by_%s' % (OPNAME[op], kn, ck), [('x', kind), ('y', ck)], kind, ('shift', op, ('var', 'x', kind), ('var', 'y', ck), kind), 'bv', pre)
-            for c in (0, 1, 7, 8, 15, 16, 31, 32, 33, 40, 63, 64, 65):
+            for c in ((0, 1, 8, 31, 32, 40, 63, 64) if tier == 'quick' else (0, 1, 7, 8, 15, 16, 31, 32, 33, 40, 63, 64, 65)):
                 add('S_%s_%s_c%d' % (OPNAME[op], kn, c), [('x', kind)], kind, ('shift', op, ('var', 'x', kind), ('const', c, 'uint'), kind), 'bv')
         for k2 in KINDS:
             add('V_%s_to_%s' % (kn, k2), [('x', kind)], k2, ('conv', k2, ('var', 'x', kind)), 'jn')
